@@ -244,6 +244,11 @@ def directed_histories():
     for kk in range(1, 10):
         hs.append({"id": "d-remove1-k%d" % kk, "onClassic": True, "ops": [
             op("install", rev=3), op("remove", rev=0, fk=kk), op("enable"), op("disable", fk=kk % 5), op("remove", rev=3)]})
+    # removing the current revision of a disabled snap (doDiscardSnap must pick a new current)
+    hs.append({"id": "d-remove-current-inactive", "onClassic": False, "ops": [
+        op("install", rev=1), op("refresh", rev=2), op("refresh", rev=3), op("revert", rev=2), op("disable"),
+        op("remove", rev=2), op("enable"), op("disable"), op("remove", rev=3, fk=2), op("remove", rev=3),
+        op("remove", rev=1), op("candidates", rev=2)]})
     # PartialDiscard (named deviation of SnapSeq): discard-snap of the last revision fails after the files are gone
     for fop in PARTIAL_DISCARD_OPS:
         hs.append({"id": "d-partial-discard-" + fop, "onClassic": False, "ops": [
@@ -296,7 +301,7 @@ def directed_histories():
 # ----------------------------------------------------------------------------------------------- trace validation
 
 _KEEP = ("ev", "case", "op", "ok", "tasks", "idx", "mode", "status", "boot")
-_ENV_EVENTS = ("Request", "SetRetain", "SetConfig", "Inhibit", "SetBoot", "Candidates")
+_ENV_EVENTS = ("Request", "SetRetain", "SetConfig", "Inhibit", "SetBoot", "Candidates", "Panic")
 
 
 def split_per_snap(log):
@@ -477,6 +482,8 @@ def changes_of(log):
         elif e["ev"] in ("Do", "Undo", "Fail", "Unexpected"):
             if cur is not None:
                 cur["events"].append(e)
+        elif e["ev"] == "Panic":
+            cur = None
         elif e["ev"] == "Settle":
             cur.update({"post": e["st"], "status": e["status"], "ops": e.get("ops") or [], "injected": e.get("injected", ""),
                         "storeBlock": e.get("storeBlock")})
@@ -663,6 +670,10 @@ def direct_check(prop, log):
                     if bad:
                         report("C13:" + ",".join(bad), ch["hist"], "revert %s: before=%s after=%s" % (opstr(op), json.dumps(p), json.dumps(q)),
                                {"case": ch["case"], "history": ch["hist"], "before": p, "after": q})
+    for e in log:
+        if e["ev"] == "Panic":
+            report("%s:real entry point panicked: %s" % (prop, e.get("what")), history_of_case(log, e["case"], e.get("_line")),
+                   "panic in %s: %s" % (opstr(e["op"]), e.get("what")), {"case": e["case"], "op": e["op"]})
     # refused reverts: state must be unchanged and the refusal justified
     if prop == "C13":
         prev = None
